@@ -1,23 +1,23 @@
 CONSTANTS
   NV = 3
   MaxE = 3
-  Lens = {2, 4}
-  Spds = {1, 2}
+  Lens = {1, 2}
+  Spds = {1}
   Heads = {0}
   HVals = {0, 2000}
-  Dirs = {"fwd", "rev"}
+  Dirs = {"fwd"}
   TieVals = {FALSE}
   MaxBad = 0
-  Limits <- NoLimits
+  Limits <- FewLimits
   Delays <- NoDelay
-  Weights <- Blend
-  Surs = {0, 1}
+  Weights <- DistOnly
+  Surs = {0}
   CUs <- BaseCU
-  Rts <- NoRt
+  Rts <- SomeRt
   NoDst = FALSE
   OkSubsets = FALSE
   NeedConsistent = FALSE
 INIT Init
+NEXT Next
+INVARIANTS TreeEdgeOK TreeRooted TreeMono TreeAllowed AtDone IterBound SizeBound RtBound
 CHECK_DEADLOCK FALSE
-NEXT NextGen
-INVARIANTS Emit
